@@ -29,7 +29,7 @@ SPEC = dict(
          "deadline, whole-worker ticks, memory ejections, single sendTraces iterations, reloads (sampler generation, DryRun), kept-capacity resizes and stress-relief episodes (spans through ProcessSpanImmediately) on "
          "a real InMemCollector with 1-4 workers, kept-record capacity 1-3 (or 50), MaxExpiredTraces 0-2; non-trivial = at "
          "least one decision took a trace, at least one late span met the decision record and one sendTraces iteration "
-         "forwarded spans; distinct by transcript hash",
+         "forwarded spans; TraceTimeout/SendDelay drawn per case from (10 s,2 s),(60 s,0.1 s),(1 s,1 s),(2 s,2 s),(1 s,3 s),(1 s,60 s) - i.e. also TraceTimeout <= SendDelay, where 60 in 100 spans are roots (root-first and single-span traces); distinct by transcript hash",
     trusted_base=["clockwork.FakeClock", "transmit.MockTransmission as the recording transmission",
                   "harness gate between send() and the real sendTraces goroutine (zz_verif_collector.go)",
                   "hashicorp LRU modelled as textbook LRU, cuckoo filter + recent-drop set modelled as an exact set "
